@@ -1,5 +1,5 @@
 \* behaviour generation (quick): EVERY history of length <= 2 in which only the last call may leave the
-\* state unchanged -- buffers <= 4 bytes, a 4-byte host array, dtype sizes 1/2/4, argument classes
+\* state unchanged -- buffers <= 4 bytes, a 4-byte host array, dtype sizes 1/2 (4 in the thorough tier), argument classes
 \* {NEGHUGE,-2,-1,0,1,L,L+1,HUGE} for single-handle calls, offsets {-1,0,1} for device-to-device copies
 SPECIFICATION Spec
 CONSTANTS
@@ -7,7 +7,7 @@ CONSTANTS
   NStores = 3
   MaxBytes = 4
   HostInit <- Host4
-  ESizes = {1, 2, 4}
+  ESizes = {1, 2}
   NStamps = 24
   PatMod = 200
   Dom <- DomTinyTok
